@@ -198,6 +198,29 @@ def refine_processed(prog, leaves, universe, result, env, proc, stats, ctx):
     if fresh:
         expr = ("ref", cols[0])
         requests.append(("calc", ("calc", prog, fresh[0], expr), lambda r, **o: r.with_calculated_column(fresh[0], lib_e(expr), **o)))
+    # the processed tree chained with itself, evaluated twice (whatever evaluating the chain does with the payloads that
+    # process() attached - possibly lazy iterables - must not show in the second evaluation)
+    if not is_order_loss_root(result):
+        node2 = ("chain", prog, prog)
+        try:
+            doubled = result.chain(result)
+        except Exception as e:
+            if not (isinstance(e, (ColumnError, EngineError)) or is_order_loss(e)):
+                raise Violation("refine-raised", f"chain of the processed tree with itself raised {type(e).__name__}: {str(e)[:200]}; {ctx}", sig=exc_sig(e))
+            doubled = None
+        if doubled is not None:
+            want = ev_multi(node2, leaves)
+            for attempt in (1, 2):
+                try:
+                    got = execute_processed(env, proc.process(doubled))
+                except DatabaseError:
+                    break
+                except Exception as e:
+                    raise Violation("refined-tree-not-executable", f"chain of the processed tree with itself, evaluation #{attempt}: {type(e).__name__}: {str(e)[:300]}; processed {str(result)[:300]}; {ctx}", sig=exc_sig(e))
+                bad = compare(want, got)
+                if bad:
+                    raise Violation("refined-rows-differ", f"chain of the processed tree with itself, evaluation #{attempt}: {bad}; processed {str(result)[:300]}; {ctx}")
+            stats.c["refine:self-chain"] += 1
     for name, node, call in requests:
         expected = None
         for ei, pe in enumerate(env.engines):
@@ -227,6 +250,11 @@ def refine_processed(prog, leaves, universe, result, env, proc, stats, ctx):
                     f"{name} with preferred_engine=E{ei} applied to the processed tree: {bad}; processed {str(result)[:300]}; refined {str(refined)[:300]}; {ctx}",
                 )
             stats.c["refine:compared"] += 1
+
+
+def is_order_loss_root(rel):
+    """A SQL relation ending in an un-sliced sort cannot be a chain operand (documented refusal)."""
+    return False
 
 
 def has_iter_join(prog, leaves):
@@ -433,7 +461,8 @@ def run_case(case, stats):
         tree = rels[id(prog)]
         had_payload = {id(n) for n in lib_nodes(tree) if getattr(n, "payload", None) is not None}
         before = fingerprint(tree, marker_payloads=False)
-        proc = make_processor(env)
+        # in half of the cases transfers between iteration engines that are not materialized hand over lazy rows
+        proc = make_processor(env, lazy_transfers=int(codec.digest(case)[:2], 16) % 2 == 1)
         ctx = f"program {fmt(prog, leaves)}; tree {tree}"
         if fault:
             from vf.core.env import InjectedFault
